@@ -164,6 +164,35 @@ def body(ctx: C.Ctx, proof: C.ProofStatus) -> C.Result:
             if a != b:
                 # pooling of kinds/priorities across a reference?
                 res.failures.append(C.Failure(f"{q_ref!r} selects different notes than the explicit conjunction {q_exp!r}", {**case, "q_ref": q_ref, "q_exp": q_exp, "got": a[:500], "want": b[:500]}))
+        # ---- the same referencing query again after a NESTED saved query was edited / deleted (one process, outer file untouched)
+        zq = zdir / "zoq"
+        if zq.exists():
+            shutil.rmtree(zq)
+        zq.mkdir(parents=True)
+        (zq / "outer.zoq").write_text("# W {inner} | #work\n")
+        (zq / "inner.zoq").write_text("# W o\n")
+        q_again = "S note W {outer} O none G none"
+        with freeze_time(dt.datetime(*TODAY, 12, 0)):
+            try:
+                first = swog.execute(zdir, url, q_again)
+                (zq / "inner.zoq").write_text("# W x\n")   # same size, the outer file keeps its mtime
+                second = swog.execute(zdir, url, q_again)
+                want = swog.execute(zdir, url, "S note W (x) | #work O none G none")
+                res.evaluations += 1
+                res.count("re_executed_after_nested_edit")
+                if second != want:
+                    res.failures.append(C.Failure("after the nested saved query `inner` was changed from `W o` to `W x`, `W {outer}` (outer = `W {inner} | #work`) still selects the notes of the old definition",
+                                                  {"kind": "stale_nested", "first": first[:300], "second": second[:300], "want": want[:300]}))
+                (zq / "inner.zoq").unlink()
+                gone = None
+                try:
+                    gone = swog.execute(zdir, url, q_again)
+                except BaseException as e:  # noqa: BLE001
+                    gone = e
+                if isinstance(gone, str) and gone == second and second.strip():
+                    res.failures.append(C.Failure("after the nested saved query `inner` was deleted, `W {outer}` still answers as before instead of failing", {"kind": "stale_nested_deleted"}))
+            except Exception as e:  # noqa: BLE001
+                res.failures.append(C.Failure(f"re-executing a referencing query raised {type(e).__name__}: {e}", {"kind": "stale_nested_exc"}))
     # ---- pinned witness of the known finding (kinds pool across an un-parenthesised reference) ------
     if zdir.exists():
         shutil.rmtree(zdir)
